@@ -6,6 +6,18 @@ var _ = gosym.Options{}
 
 var props = []PropSpec{
 	{
+		ID: "C09", Level: "other",
+		Explanation: "bounded symbolic execution of compile + Core.Run / interpreter.callFunc with the configured limits as solver variables (the code only compares against them, so the solver finds the boundary values) and the recursion depth as a symbolic host input; outcomes are asserted to be completion with unchanged output or the corresponding overflow interrupt, never a host crash, plus monotonicity in the limit and equal behaviour for 1 and 4 loop iterations",
+		Harnesses: []HarnessSpec{
+			{Pkg: "homescript", Func: "VerifHarness_CallDepthLimit", Quick: map[string]int{"N": 6, "M": 16}, Thor: map[string]int{"N": 70, "M": 90}, Require: []string{"ran"},
+				What: "recursion depth N in 0..Nmax (symbolic) vs symbolic call-depth limit in 0..M on VM and tree interpreter: no crash, completion or stack overflow, enforcement beyond one scheduling quantum, non-interference, monotonic in the limit"},
+			{Pkg: "homescript", Func: "VerifHarness_StackLimit", Quick: map[string]int{"W": 40, "M": 64}, Thor: map[string]int{"W": 80, "M": 128}, Require: []string{"ran"},
+				What: "expression nesting / list width W vs symbolic operand-stack limit: no crash, completion or overflow, generous limits never stop the program"},
+			{Pkg: "homescript", Func: "VerifHarness_MemoryLimit", Quick: map[string]int{}, Require: []string{"ran"},
+				What: "MaxMemorySize in {0,1,2,3,4,6,8,12,16,64}: loop calling a function with locals behaves the same for 1 and 4 iterations (frames/memory returned), out-of-memory is an interrupt"},
+		},
+	},
+	{
 		ID: "C03", Level: "other",
 		Explanation: "bounded symbolic execution of the real analyzer (through Parse+Analyze) over rule templates whose type kinds, arities, operators and syntactic positions are selectors explored exhaustively by the engine; oracle: fault switch <=> at least one error-level diagnostic, recorded expression/variable types equal the rule's result type; Analyzer.TypeCheck is compared with a reference compatibility relation on type trees",
 		Harnesses: []HarnessSpec{
